@@ -56,5 +56,13 @@ _cond("C14", [("MC_C03", "MC_C14_quick.cfg"), ("MC_COND", "MC_C14a_quick.cfg"), 
       "Expected log-factor and expected log-conditional integrals are defined in the specification through exact Isserlis moments (E[x' Lam x], E[x]) for arbitrary Gaussian q, enumerated over every factor kind / conditional class / batch pattern, and replayed into the code (callable and y-given variants).",
       "linear part: all factor kinds with R_f in {1, R_u}; conditional classes Cond, CondDiag, CondId, CondIdDiag; q an arbitrary Gaussian over (y,x)")
 
+PROPS["C04"] = {
+    "quick": [{"module": "MC_SESSION", "cfg": "MC_C04M_quick.cfg", "nprimes": 6},
+              {"module": "MC_SESSION", "cfg": "MC_C04C_quick.cfg", "nprimes": 6}],
+    "level_text": "The session state machine is explored exhaustively by TLC (every operation sequence up to the depth, cache-warming queries interleaved; invariant: every populated cache of every live object equals the value derived from its defining parameters, for the implementation-shaped cache formulas incl. Sherman-Morrison, determinant lemma, covariance reuse, diagonal inversion); every explored history is replayed into the code and every cache field the code exposes is compared with the exactly derived value after every step.",
+    "level_note": _LN + " History depth is bounded (see cfg); deeper histories are sampled in the thorough tier.",
+    "explanation": "family M: measure/factor algebra; family C: conditionals, transformations, likelihood factors, marginals, update",
+}
+
 NOT_APPLICABLE = {}
 HOOK_COMMITS = []
